@@ -16,6 +16,7 @@ import OmbottModel.Drv.EnvCache
 import OmbottModel.Drv.Helpers
 import OmbottModel.Drv.RouterListing
 import OmbottModel.Drv.App
+import OmbottModel.Drv.RegApi
 /-! Dispatch of a protocol line to the area handlers.  `State` holds the few models that are
 driven as state machines across lines (router, multipart feed, header store). -/
 namespace Drv
@@ -51,6 +52,7 @@ def step (st : State) (line : String) : State × String :=
     | "helpers" => pure? (Helpers.handle rest)
     | "rlist" => pure? (RouterListing.handle rest)
     | "app" => pure? (App.handle rest)
+    | "regapi" => pure? (RegApi.handle rest)
     | _ => (st, "bad-op")
 
 end Drv
